@@ -9,6 +9,7 @@ for d in /verif/seeded/*/; do
   case "$n" in $1*) ;; *) [ -n "$1" ] && continue ;; esac
   prop=$(/venv/bin/python -c "import json,sys; print(json.load(open('$d/meta.json'))['property'])" 2>/dev/null | tail -1)
   [ -z "$prop" ] && continue
+  if grep -q '"obsolete"' "$d/meta.json"; then echo "$n $prop OBSOLETE" | tee -a "$out.tmp"; continue; fi
   t0=$(date +%s)
   res=$(KEEP_REPLAY="$d" /verif/selftest/mutant_run.sh "$d/patch.diff" "$prop" 2>&1 | grep -v conda)
   verdict=$(echo "$res" | grep -E "^(DETECTED|MISSED|HARNESS-ERROR)" | cut -d' ' -f1)
